@@ -50,6 +50,69 @@ use tensor_chain::raft::{RaftConfig, RaftNode};
 use tensor_chain::raft_wal::{RaftRecoveryState, RaftWal};
 use tensor_store::SparseVector;
 
+/// The transport of the node under test. Every message handed to it has left the node: it is
+/// recorded together with the length of the WAL file at that very moment (what the message
+/// announces must already be in the file then). `fail_next_broadcast` makes one broadcast reach
+/// the first peer only and return an error.
+struct StampTransport {
+    local: String,
+    peers: Vec<String>,
+    wal: PathBuf,
+    outbox: parking_lot::Mutex<Vec<(String, Message, u64)>>,
+    fail_next_broadcast: std::sync::atomic::AtomicBool,
+}
+
+impl StampTransport {
+    fn new(local: &str, peers: &[String], wal: &Path) -> Arc<Self> {
+        Arc::new(Self {
+            local: local.to_string(),
+            peers: peers.to_vec(),
+            wal: wal.to_path_buf(),
+            outbox: parking_lot::Mutex::new(Vec::new()),
+            fail_next_broadcast: std::sync::atomic::AtomicBool::new(false),
+        })
+    }
+    fn drain(&self) -> Vec<(String, Message, u64)> {
+        std::mem::take(&mut *self.outbox.lock())
+    }
+}
+
+#[async_trait::async_trait]
+impl tensor_chain::network::Transport for StampTransport {
+    async fn send(&self, to: &String, msg: Message) -> tensor_chain::error::Result<()> {
+        let at = file_len(&self.wal);
+        self.outbox.lock().push((to.clone(), msg, at));
+        Ok(())
+    }
+    async fn broadcast(&self, msg: Message) -> tensor_chain::error::Result<()> {
+        let at = file_len(&self.wal);
+        let fail = self.fail_next_broadcast.swap(false, std::sync::atomic::Ordering::SeqCst);
+        let mut o = self.outbox.lock();
+        for p in &self.peers {
+            o.push((p.clone(), msg.clone(), at));
+            if fail {
+                return Err(tensor_chain::error::ChainError::NetworkError("connection to the second peer lost during broadcast".into()));
+            }
+        }
+        Ok(())
+    }
+    async fn recv(&self) -> tensor_chain::error::Result<(String, Message)> {
+        std::future::pending().await
+    }
+    async fn connect(&self, _peer: &tensor_chain::network::PeerConfig) -> tensor_chain::error::Result<()> {
+        Ok(())
+    }
+    async fn disconnect(&self, _peer_id: &String) -> tensor_chain::error::Result<()> {
+        Ok(())
+    }
+    fn peers(&self) -> Vec<String> {
+        self.peers.clone()
+    }
+    fn local_id(&self) -> &String {
+        &self.local
+    }
+}
+
 #[global_allocator]
 static A: common::alloc::Counting = common::alloc::Counting;
 
@@ -75,9 +138,19 @@ fn cfg() -> RaftConfig {
 // identifies an entry, as in Raft)
 // ------------------------------------------------------------------------------------------------
 
+thread_local! {
+    /// cases with occasional large (1-3 MiB) incompressible blocks; entry content stays a function
+    /// of (index, term) within the case
+    static BIG_BLOCKS: std::cell::Cell<bool> = const { std::cell::Cell::new(false) };
+}
+
 fn mk_block(index: u64, term: u64) -> Block {
     let k = hash_combine(index.wrapping_mul(0x9E37), term.wrapping_add(77));
     let mut h = BlockHeader::default();
+    if BIG_BLOCKS.with(|b| b.get()) && (k >> 20) % 5 == 0 {
+        let len = (1usize << 20) + 4096 + ((k >> 8) as usize % (2 << 20));
+        h.signature = Rng::new(k).bytes(len);
+    }
     h.height = index;
     h.timestamp = term;
     h.proposer = format!("L{}", term);
@@ -212,7 +285,7 @@ struct Sim {
     wal: PathBuf,
     img: PathBuf,
     peers: Vec<String>,
-    transport: Arc<CaptureTransport>,
+    transport: Arc<StampTransport>,
     node: Option<RaftNode>,
     rt: tokio::runtime::Runtime,
     // environment: log (entry terms, index = position + 1) of the leader of each term
@@ -240,6 +313,8 @@ struct Sim {
     force_hb_success: bool,
     /// the live log stopped following the reference model (see check_model)
     diverged: bool,
+    /// a case with occasional 1-3 MiB incompressible blocks (crash images are sampled sparsely)
+    big: bool,
     crashes: Vec<u64>,
     trace: Vec<String>,
     seen: BTreeSet<String>,
@@ -259,7 +334,7 @@ impl Sim {
         let dir = Scratch::new(base, "c10");
         let wal = dir.join("n0.wal");
         let img = dir.join("image.wal");
-        let transport = CaptureTransport::new(NODE, &peers);
+        let transport = StampTransport::new(NODE, &peers, &wal);
         let rt = tokio::runtime::Builder::new_current_thread().build().expect("tokio runtime");
         Sim {
             part,
@@ -285,6 +360,7 @@ impl Sim {
             force_win: false,
             force_hb_success: false,
             diverged: false,
+            big: false,
             crashes: Vec::new(),
             trace: Vec::new(),
             seen: BTreeSet::new(),
@@ -296,7 +372,7 @@ impl Sim {
     }
 
     fn replay(&self) -> Value {
-        json!({"part": self.part.name(), "case_seed": self.seed, "quick": self.quick})
+        json!({"part": self.part.name(), "case_seed": self.seed, "quick": self.quick, "big": self.big})
     }
 
     fn ctx(&self, x: u64, snap: bool) -> &'static str {
@@ -337,7 +413,7 @@ impl Sim {
     }
 
     fn open_node(&mut self, r: &mut Report) -> bool {
-        self.transport = CaptureTransport::new(NODE, &self.peers);
+        self.transport = StampTransport::new(NODE, &self.peers, &self.wal);
         match RaftNode::with_wal(NODE.to_string(), self.peers.clone(), self.transport.clone(), cfg(), &self.wal) {
             Ok(n) => {
                 self.node = Some(n);
@@ -377,6 +453,9 @@ impl Sim {
                         }
                         self.bounds.insert(p as u64);
                         r.count("wal_records_written", 1);
+                        if len > (1 << 20) {
+                            r.count("wal_records_larger_than_1MiB", 1);
+                        }
                     }
                     if !ok {
                         // bytes on disk at an ack boundary are not a whole number of records
@@ -440,6 +519,32 @@ impl Sim {
             r.count("live_log_left_the_model", 1);
             self.diverged = true;
             self.stop = true;
+        }
+    }
+
+    /// hand a message to the node: through handle_message (the reply is the return value; its
+    /// promises are stamped with the WAL length at return) or, one time in three, through
+    /// handle_message_async (the node sends the reply through its transport; stamped at send time).
+    /// Returns (reply, WAL length before the call, stamp of the reply's promises).
+    fn deliver(&mut self, from: &String, msg: &Message, r: &mut Report) -> (Option<Message>, u64, u64) {
+        let pre = file_len(&self.wal);
+        if self.rng.chance(1, 3) {
+            let _ = self.rt.block_on(self.node().handle_message_async(from, msg.clone()));
+            let post = self.after_call(pre, r);
+            r.count("messages_handled_through_handle_message_async", 1);
+            let mut reply = None;
+            let mut at = post;
+            for (to, m, sent_at) in self.transport.drain() {
+                if &to == from && reply.is_none() {
+                    reply = Some(m);
+                    at = sent_at;
+                }
+            }
+            (reply, pre, at)
+        } else {
+            let reply = self.node().handle_message(from, msg);
+            let post = self.after_call(pre, r);
+            (reply, pre, post)
         }
     }
 
@@ -568,9 +673,7 @@ impl Sim {
             last_log_term: llt,
             state_embedding: SparseVector::new(0),
         });
-        let pre = file_len(&self.wal);
-        let reply = self.node().handle_message(&cand, &msg);
-        let post = self.after_call(pre, r);
+        let (reply, _pre, post) = self.deliver(&cand, &msg, r);
         if let Some(Message::RequestVoteResponse(rv)) = reply {
             self.trace.push(format!("RequestVote(term {}, from {}, last {}/{}) -> term {} granted {} @{}", term, cand, lli, llt, rv.term, rv.vote_granted, post));
             self.note_term(post, rv.term, "RequestVoteResponse");
@@ -599,9 +702,7 @@ impl Sim {
         if self.rng.bool() {
             self.node().reset_heartbeat_for_election();
         }
-        let pre = file_len(&self.wal);
-        let reply = self.node().handle_message(&cand, &msg);
-        let post = self.after_call(pre, r);
+        let (reply, _pre, post) = self.deliver(&cand, &msg, r);
         if let Some(Message::PreVoteResponse(pv)) = reply {
             self.trace.push(format!("PreVote(from {}) -> term {} granted {} @{}", cand, pv.term, pv.vote_granted, post));
             self.note_term(post, pv.term, "PreVoteResponse");
@@ -666,9 +767,7 @@ impl Sim {
         };
         let from = ae.leader_id.clone();
         let msg = Message::AppendEntries(ae);
-        let pre = file_len(&self.wal);
-        let reply = self.node().handle_message(&from, &msg);
-        let post = self.after_call(pre, r);
+        let (reply, pre, post) = self.deliver(&from, &msg, r);
         let Some(Message::AppendEntriesResponse(resp)) = reply else {
             self.trace.push(format!("AppendEntries(term {}) -> no reply @{}", t, post));
             return;
@@ -692,6 +791,9 @@ impl Sim {
             // leader's up to prev (it checked prev itself, unless prev is a compacted position)
             if resp.match_index >= prev as u64 && prev as u64 > self.base && prev <= l.len() {
                 for i in (self.base as usize + 1)..=prev {
+                    if self.led.entries.iter().any(|e| e.until.is_none() && e.index == i as u64 && e.term == l[i - 1]) {
+                        continue;
+                    }
                     self.led.entry(post, i as u64, l[i - 1], entry_bytes(&mk_entry(i as u64, l[i - 1])), "acknowledged to a leader (covered by match_index: the node matched the leader's log up to prev)", false);
                 }
             }
@@ -737,31 +839,47 @@ impl Sim {
     fn step_election(&mut self, r: &mut Report) {
         self.node().reset_heartbeat_for_election();
         let pre = file_len(&self.wal);
-        let res = self.rt.block_on(self.node().start_election_async());
-        let post = self.after_call(pre, r);
-        let out = self.transport.drain();
-        if res.is_err() {
-            self.trace.push(format!("start_election_async -> Err @{}", post));
-            return;
+        // one election in eight loses the connection in the middle of the broadcast
+        let failing = !self.force_win && self.rng.chance(1, 8);
+        if failing {
+            self.transport.fail_next_broadcast.store(true, std::sync::atomic::Ordering::SeqCst);
         }
+        let res = self.rt.block_on(self.node().start_election_async());
+        self.transport.fail_next_broadcast.store(false, std::sync::atomic::Ordering::SeqCst);
+        let end = self.after_call(pre, r);
+        let out = self.transport.drain();
+        // whatever reached the transport has left the node, whether or not the call succeeded;
+        // what it announces is stamped with the WAL length at the moment it was handed over
         let mut term = 0;
-        for (_, m) in &out {
+        let mut post = end;
+        for (_, m, sent_at) in &out {
             if let Message::RequestVote(rv) = m {
                 term = rv.term;
+                post = post.min(*sent_at);
                 if rv.candidate_id != NODE {
                     r.inconclusive("RequestVote with a foreign candidate id");
                 }
             }
         }
         if term == 0 {
-            self.trace.push(format!("start_election_async -> nothing sent @{}", post));
+            self.trace.push(format!("start_election_async -> {} , nothing sent @{}", if res.is_ok() { "Ok" } else { "Err" }, end));
             return;
         }
         r.count("elections_started", 1);
-        self.trace.push(format!("start_election_async -> RequestVote(term {}) broadcast @{}", term, post));
+        if res.is_err() {
+            r.count("elections_with_failed_broadcast", 1);
+        }
+        self.trace.push(format!(
+            "start_election_async -> {} ; RequestVote(term {}) handed to the transport for {} peer(s) when the WAL was {} bytes long; WAL {} bytes at return",
+            if res.is_ok() { "Ok" } else { "Err(broadcast failed)" },
+            term,
+            out.len(),
+            post,
+            end
+        ));
         self.note_term(post, term, "own RequestVote");
         self.note_grant(r, post, term, NODE);
-        let may_win = !self.leaders.contains_key(&term);
+        let may_win = !self.leaders.contains_key(&term) && res.is_ok();
         self.node_terms.insert(term);
         let roll = self.rng.below(10);
         match if self.force_win { 0 } else { roll } {
@@ -795,16 +913,17 @@ impl Sim {
     fn step_pre_vote_out(&mut self, r: &mut Report) {
         let pre = file_len(&self.wal);
         let res = self.rt.block_on(self.node().start_pre_vote_async());
-        let post = self.after_call(pre, r);
+        let mut post = self.after_call(pre, r);
         let out = self.transport.drain();
-        if res.is_err() {
-            return;
-        }
         let mut term = None;
-        for (_, m) in &out {
+        for (_, m, sent_at) in &out {
             if let Message::PreVote(pv) = m {
                 term = Some(pv.term);
+                post = post.min(*sent_at);
             }
+        }
+        if res.is_err() {
+            return;
         }
         let Some(term) = term else { return };
         self.note_term(post, term, "own PreVote");
@@ -859,12 +978,12 @@ impl Sim {
             return;
         }
         let mut sent = Vec::new();
-        for (to, m) in out {
+        for (to, m, sent_at) in out {
             if let Message::AppendEntries(ae) = m {
-                self.note_term(post, ae.term, "own AppendEntries");
+                self.note_term(sent_at, ae.term, "own AppendEntries");
                 for e in &ae.entries {
                     // what a leader replicates it has accepted; content taken from its own message
-                    self.led.entry(post, e.index, e.term, entry_bytes(e), "replicated by the node as leader", false);
+                    self.led.entry(sent_at, e.index, e.term, entry_bytes(e), "replicated by the node as leader", false);
                 }
                 sent.push((to, ae));
             }
@@ -1110,11 +1229,11 @@ impl Sim {
         };
         let post = self.after_call(pre, r);
         // tick_async may also have sent heartbeats
-        for (_, m) in self.transport.drain() {
+        for (_, m, sent_at) in self.transport.drain() {
             if let Message::AppendEntries(ae) = m {
-                self.note_term(post, ae.term, "own AppendEntries");
+                self.note_term(sent_at, ae.term, "own AppendEntries");
                 for e in &ae.entries {
-                    self.led.entry(post, e.index, e.term, entry_bytes(e), "replicated by the node as leader", false);
+                    self.led.entry(sent_at, e.index, e.term, entry_bytes(e), "replicated by the node as leader", false);
                 }
             }
         }
@@ -1387,7 +1506,29 @@ impl Sim {
         let len = bytes.len() as u64;
         let full_limit: u64 = if self.quick { 1_400 } else { 3_000 };
         let mut pts: BTreeSet<u64> = BTreeSet::new();
-        if len - lo <= full_limit {
+        if self.big {
+            // megabyte records: every record and ack boundary -1, +0, +1, +8 (bare header) and the
+            // middle of every record, plus a small seeded sample
+            let bs: Vec<u64> = self.bounds.iter().chain(self.calls.iter()).copied().filter(|b| *b >= lo).collect();
+            let mut prev = lo;
+            for b in &bs {
+                for d in [0u64, 1, 8] {
+                    pts.insert(b + d);
+                }
+                pts.insert(b.saturating_sub(1));
+                if *b > prev + 16 {
+                    pts.insert(prev + (*b - prev) / 2);
+                }
+                prev = *b;
+            }
+            for _ in 0..24 {
+                pts.insert(lo + self.rng.below((len - lo + 1) as usize) as u64);
+            }
+            pts.insert(lo);
+            pts.insert(len);
+            pts.retain(|p| *p >= lo && *p <= len);
+            r.count("phases_sampled_not_exhaustive", 1);
+        } else if len - lo <= full_limit {
             pts.extend(lo..=len);
         } else {
             // every record boundary and ack boundary +-2 bytes, the 8 header bytes behind each
@@ -1579,9 +1720,19 @@ fn err_class(e: &str) -> &'static str {
     }
 }
 
-fn run_case(part: Part, seed: u64, base: &Path, quick: bool, r: &mut Report) {
+fn run_case(part: Part, seed: u64, big: bool, base: &Path, quick: bool, r: &mut Report) {
+    BIG_BLOCKS.with(|b| b.set(big));
+    run_case_inner(part, seed, big, base, quick, r);
+    BIG_BLOCKS.with(|b| b.set(false));
+}
+
+fn run_case_inner(part: Part, seed: u64, big: bool, base: &Path, quick: bool, r: &mut Report) {
     common::alloc::thread_mark();
     let mut sim = Sim::new(part, seed, base, quick);
+    sim.big = big;
+    if big {
+        r.count("cases_with_large_blocks", 1);
+    }
     if !sim.open_node(r) {
         return;
     }
@@ -1931,15 +2082,15 @@ fn main() {
             let part = if rp["part"].as_str() == Some("snapshot") { Part::Snapshot } else { Part::Main };
             // the case ran under the tier recorded in the replay (image sampling depends on it)
             let q = rp["quick"].as_bool().unwrap_or(quick);
-            run_case(part, seed, &base, q, &mut total);
+            run_case(part, seed, rp["big"].as_bool().unwrap_or(false), &base, q, &mut total);
         }
     } else if space_ok {
         let n_main = args.by_tier(6_000u64, 400_000u64);
-        let rep = par_cases(args.threads, args.seed, n_main, args.budget(36, 540), |_i, s, r| run_case(Part::Main, s, &base, quick, r));
+        let rep = par_cases(args.threads, args.seed, n_main, args.budget(36, 540), |i, s, r| run_case(Part::Main, s, i % 24 == 5, &base, quick, r));
         total.count("main_cases", rep.counters.get("cases").copied().unwrap_or(0));
         total.merge(rep);
         let n_snap = args.by_tier(1_200u64, 80_000u64);
-        let rep = par_cases(args.threads, args.seed ^ 0x5A, n_snap, args.budget(18, 200), |_i, s, r| run_case(Part::Snapshot, s, &base, quick, r));
+        let rep = par_cases(args.threads, args.seed ^ 0x5A, n_snap, args.budget(18, 200), |i, s, r| run_case(Part::Snapshot, s, i % 24 == 5, &base, quick, r));
         total.count("snapshot_cases", rep.counters.get("cases").copied().unwrap_or(0));
         total.merge(rep);
         // each case runs 2-3 threads of its own
